@@ -44,6 +44,8 @@ type worldT struct {
 	initial      uint64
 	futureStart  bool
 	stopped      bool
+	queues       *world.EventQueues
+	ioerr        string // non-empty: a datastore write was made to fail (transient I/O error)
 }
 
 func startWorld(c *explore.Ctx, futureGenesis bool, daBlock time.Duration) (*worldT, *world.Fail) {
@@ -87,7 +89,21 @@ func startWorld(c *explore.Ctx, futureGenesis bool, daBlock time.Duration) (*wor
 	if err != nil {
 		return nil, &world.Fail{Clause: "startup", Msg: "full node: " + err.Error()}
 	}
-	w.full.M.VerifSetSendGate(func(ch string) { w.sched.Gate("send:" + ch) })
+	w.queues = world.InstallDivert(w.sched, w.full, "sync")
+	// one transient datastore write error anywhere (both nodes)
+	for _, n := range []*world.Node{w.agg, w.full} {
+		who := map[bool]string{true: "sequencer-node", false: "full-node"}[n.Agg]
+		n.KV.FailWrite = func(idx int, wr world.Write) bool {
+			if w.stopped || w.ioerr != "" {
+				return false
+			}
+			if c.Choose("ioerr", 2) == 1 {
+				w.ioerr = who + ":" + wr.String()
+				return true
+			}
+			return false
+		}
+	}
 	var ctx context.Context
 	ctx, w.cancel = context.WithCancel(context.Background())
 	a, f := w.agg.M, w.full.M
@@ -109,6 +125,9 @@ func startWorld(c *explore.Ctx, futureGenesis bool, daBlock time.Duration) (*wor
 
 // invariants checks C01/C02/C06/C07 on the current state of both nodes.
 func (w *worldT) invariants() *world.Fail {
+	if w.ioerr != "" {
+		return nil // after an injected I/O error a loop may legitimately report a fatal error; only stopping is checked
+	}
 	select {
 	case err := <-w.errCh:
 		return &world.Fail{Clause: "loop-fatal-error", Msg: "a loop reported a fatal error: " + err.Error()}
@@ -170,7 +189,11 @@ func (w *worldT) stop() *world.Fail {
 	}
 	alive := w.sched.Alive()
 	if len(alive) > 0 {
-		return &world.Fail{Clause: "stops-promptly", Msg: fmt.Sprintf("one block interval after the stop request these activities have not returned: %v", alive)}
+		msg := fmt.Sprintf("one block interval after the stop request these activities have not returned: %v", alive)
+		if b := w.sched.Blocked(); len(b) > 0 {
+			msg += fmt.Sprintf("; blocked for ever on a lock (deadlock): %v", b)
+		}
+		return &world.Fail{Clause: "stops-promptly", Msg: msg}
 	}
 	return nil
 }
@@ -197,7 +220,7 @@ func (w *worldT) teardown() {
 		time.Sleep(blockTime)
 		synctest.Wait()
 	}
-	w.full.M.VerifClearSendGate()
+	w.full.M.VerifClearDivert()
 }
 
 func body(t *testing.T, c *explore.Ctx, horizonSteps int) (out outcome) {
@@ -227,6 +250,17 @@ func bubble(c *explore.Ctx, horizonSteps int) (out outcome) {
 		time.Sleep(blockTime / 10)
 		synctest.Wait()
 		w.sched.Drain()
+		if w.ioerr != "" {
+			// what FullNode.Run does when a loop reports an unrecoverable error: stop everything
+			select {
+			case <-w.errCh:
+				stoppedAt = step
+			default:
+			}
+			if stoppedAt >= 0 {
+				break
+			}
+		}
 		if step%5 == 4 {
 			if f := w.invariants(); f != nil {
 				out.fail, out.tags = f, tags
@@ -237,6 +271,10 @@ func bubble(c *explore.Ctx, horizonSteps int) (out outcome) {
 	if f := w.invariants(); f != nil {
 		out.fail, out.tags = f, tags
 		return
+	}
+	if w.ioerr != "" {
+		tags = append(tags, "io-error")
+		out.events = append(out.events, "write failed: "+w.ioerr)
 	}
 	if stoppedAt >= 0 {
 		out.events = append(out.events, fmt.Sprintf("stop at %dms", stoppedAt*100))
@@ -250,8 +288,8 @@ func bubble(c *explore.Ctx, horizonSteps int) (out outcome) {
 		out.fail, out.tags = f, tags
 		return
 	}
-	if w.full.Height() > 0 && w.sched.Sends == 0 {
-		out.fail = &world.Fail{Clause: "engine", Msg: "the full node applied blocks but no gated send was observed: the send gates are not in effect for this tree (overlay rewrite of block/retriever.go, block/store.go)"}
+	if w.full.Height() > 0 && w.queues.Diverted == 0 {
+		out.fail = &world.Fail{Clause: "engine", Msg: "the full node applied blocks but no diverted event was observed: the overlay rewrite of the sends in block/retriever.go, block/store.go is not in effect for this tree"}
 		return
 	}
 	out.sig = fmt.Sprintf("future=%v da=%s stop=%d hA=%d hF=%d incA=%d incF=%d", future, daBlock, stoppedAt, w.agg.Height(), w.full.Height(), w.agg.M.GetDAIncludedHeight(), w.full.M.GetDAIncludedHeight())
@@ -341,12 +379,14 @@ func TestCheck(t *testing.T) {
 		return
 	}
 	horizon := vf.Pick(r, 25, 40) // 100 ms steps
-	budgets := vf.Pick(r, map[string]int{"sched": 1, "stop": 1}, map[string]int{"sched": 2, "stop": 1})
+	budgets := vf.Pick(r, map[string]int{"sched": 1, "stop": 1, "ioerr": 1}, map[string]int{"sched": 2, "stop": 1, "ioerr": 1})
 	total := vf.Pick(r, 2, 3)
 	r.Assume = []string{
 		"virtual time; scheduling granularity = environment calls (datastore, DA, executor, sequencer, P2P stores) plus gated sends into the sync loop's input channels; plain memory accesses between two gates are atomic, so DATA RACES ARE NOT DECIDED by this enumeration",
 		"the worker fan-out/join of FullNode.Run (node/full.go) is not executed here (libp2p goroutines cannot run in a bubble); the ten loops are started by the harness exactly as Run starts them and joined by the scheduler",
 		"a stop is explored at every 100 ms boundary; 'promptly' = within one block interval of virtual time",
+		"locks of package block are visible to the scheduler (overlay copy with a lock shim): a thread waiting for a held lock is parked, a thread that can never get its lock is reported as a deadlock",
+		"one transient datastore write error may be injected anywhere; afterwards only the stop behaviour is judged (a loop reporting a fatal error is then legitimate and triggers the stop, as FullNode.Run does)",
 		"after the stop request scheduling is canonical (Go's random choice between ctx.Done() and another ready case is not owned; both outcomes must satisfy the oracle)",
 	}
 	if r.ReplayPath() != "" {
